@@ -54,6 +54,11 @@ FIXES = [
  ('C15','the lines of a removed file are highlighted in the language of that file','diff_header.rs: `+++ /dev/null` reset the language chosen at `--- a/file`, so the removed lines of a deleted file were painted with the default language (no highlighting under `--minus-style "syntax ..."` / side-by-side) although its name has a language'),
  ('C14','the name of a modified binary file honours --relative-paths again',"diff_header_diff.rs: under --relative-paths with GIT_PREFIX the header of a binary file modified in place showed the repository-relative name (the names from the `diff --git` line were no longer relativized after fix 3c7468b had moved that step) while all other headers were relative; also wrong link target (C19)"),
  ('C09','width and precision of {commit} in --blame-format apply to the commit','blame.rs: with --hyperlinks on a terminal the {commit} field was wrapped in an OSC 8 link before padding/cutting: a precision cut the escape sequence (link never closed, sequence cut at the line end) and the width was computed from the URL (columns misaligned; C19 transparency)'),
+ ('C14','a plain diff -u section naming the same files as the section before it','diff_header.rs: the second of two consecutive plain `diff -u` sections comparing the same pair of names (concatenated patches of one file) got no file header - plain diffs have no `diff` line that resets the record of the pair already shown (was KF-C14-1; also C10)'),
+ ('C14','quoted paths in rename/copy lines are unquoted',"diff_header.rs: with core.quotePath (git's default) the quotes of a non-ASCII path were kept in `rename from/to` / `copy from/to` lines: the header of a renamed or copied file showed them, and a renamed file with changes got a second file header because the name pairs of the rename lines and of the ---/+++ lines differed"),
+ ('C19',"the hyperlink of a binary file's header points at the file",'diff_header.rs: the note ` (binary file)` was part of the name when the header was formatted, so the OSC 8 target (and the input of --file-regex-replacement) was `<file> (binary file)` (was KF-C19-1)'),
+ ('C14','is written before a submodule entry that follows it','submodule.rs: a `Submodule <path> a..b:` entry (diff.submodule=log) following a section without hunks was written before that section\'s header, and a pending mode change was attached to the submodule line (also C10)'),
+ ('C14','a quoted path that contains a space is unquoted in the ---/+++ lines too','diff_header.rs: git writes `--- "a/\\303\\274 b.txt"<TAB>`; the quotes were looked for before the tab was removed and stayed, with the a/ b/ prefixes inside them: a modified file `ü b.txt` was shown as a rename `"a/..." -> "b/..."` (real `git diff` output)'),
 ]
 out = []
 for prop, pat, what in FIXES:
